@@ -395,6 +395,89 @@ mod verif_kani {
         mem::forget(cmsg);
     }
 
+    // ======================= K-ffi: control-message plumbing (C18) =======================
+    // the crate's own CMSG_* re-implementations agree with libc's macros for every length, and never overflow below 2^32
+    #[kani::proof]
+    fn ffi_cmsg_arithmetic() {
+        let len32: u32 = kani::any();
+        let len = len32 as usize;
+        assert!(CMSG_ALIGN(len) == (len + 7) / 8 * 8, "kani.ffi.cmsg_align_rounds_up_to_8");
+        assert!(CMSG_ALIGN(len) >= len && CMSG_ALIGN(len) < len + 8, "kani.ffi.cmsg_align_bounds");
+        kani::assume(len32 <= u32::MAX - 64);
+        assert!(CMSG_SPACE(len) == unsafe { libc::CMSG_SPACE(len32) } as usize, "kani.ffi.cmsg_space_matches_libc");
+        assert!(CMSG_LEN(len) == unsafe { libc::CMSG_LEN(len32) } as usize, "kani.ffi.cmsg_len_matches_libc");
+        assert!(mem::size_of::<cmsghdr>() == mem::size_of::<libc::cmsghdr>(), "kani.ffi.cmsghdr_layout_matches_libc");
+    }
+
+    // UnixCmsg::new: a control buffer for exactly MAX_FDS_IN_CMSG descriptors, wired into the msghdr; freed once on drop
+    #[kani::proof]
+    fn ffi_unix_cmsg_new() {
+        let mut total_size = 0usize;
+        let mut data = [0u8; 16];
+        let mut iov = [
+            iovec { iov_base: &mut total_size as *mut _ as *mut c_void, iov_len: mem::size_of::<usize>() },
+            iovec { iov_base: data.as_mut_ptr() as *mut c_void, iov_len: data.len() },
+        ];
+        let iov_ptr = iov.as_mut_ptr();
+        let r = unsafe { UnixCmsg::new(&mut iov) };
+        match r {
+            Ok(cmsg) => {
+                assert!(!cmsg.cmsg_buffer.is_null(), "kani.ffi.control_buffer_allocated");
+                assert!(cmsg.msghdr.msg_control == cmsg.cmsg_buffer as *mut c_void, "kani.ffi.msghdr_points_at_control_buffer");
+                assert!(cmsg.msghdr.msg_controllen as usize == CMSG_SPACE(MAX_FDS_IN_CMSG as usize * mem::size_of::<c_int>()),
+                        "kani.ffi.control_buffer_holds_max_fds");
+                assert!(cmsg.msghdr.msg_controllen as usize >= mem::size_of::<cmsghdr>() + 64 * 4, "kani.ffi.control_buffer_room_for_64_descriptors");
+                assert!(cmsg.msghdr.msg_iov == iov_ptr && cmsg.msghdr.msg_iovlen as usize == 2, "kani.ffi.msghdr_points_at_both_iovecs");
+                assert!(cmsg.msghdr.msg_name.is_null() && cmsg.msghdr.msg_namelen == 0 && cmsg.msghdr.msg_flags == 0, "kani.ffi.msghdr_otherwise_zero");
+                // the first descriptor slot and the last one lie inside the allocation
+                let first = unsafe { CMSG_DATA(cmsg.cmsg_buffer) } as usize - cmsg.cmsg_buffer as usize;
+                assert!(first + 64 * mem::size_of::<c_int>() <= cmsg.msghdr.msg_controllen as usize, "kani.ffi.descriptor_slots_inside_control_buffer");
+                drop(cmsg); // free() of the malloc'd buffer: CBMC checks double free / invalid free
+            },
+            Err(e) => mem::forget(e),
+        }
+    }
+
+    // is_socket: fstat failure means "not a socket"; otherwise exactly S_IFSOCK
+    static mut FSTAT_FAIL: bool = false;
+    static mut FSTAT_MODE: mode_t = 0;
+    unsafe fn k_fstat(_fd: c_int, st: *mut libc::stat) -> c_int {
+        if FSTAT_FAIL {
+            return -1;
+        }
+        (*st).st_mode = FSTAT_MODE;
+        0
+    }
+    #[kani::proof]
+    #[kani::stub(libc::fstat, k_fstat)]
+    fn ffi_is_socket() {
+        unsafe {
+            FSTAT_FAIL = kani::any();
+            FSTAT_MODE = kani::any();
+        }
+        let r = is_socket(5);
+        let expect = unsafe { !FSTAT_FAIL && (FSTAT_MODE & libc::S_IFMT) == libc::S_IFSOCK };
+        assert!(r == expect, "kani.ffi.is_socket_iff_fstat_says_socket");
+        kani::cover!(r, "cover.is_socket_true");
+    }
+
+    // new_sockaddr_un: family AF_UNIX, path copied with room for the terminating NUL
+    static mut STRNCPY_N: usize = 0;
+    unsafe fn k_strncpy_len(dst: *mut c_char, _src: *const c_char, n: size_t) -> *mut c_char {
+        STRNCPY_N = n;
+        dst
+    }
+    #[kani::proof]
+    #[kani::stub(libc::strncpy, k_strncpy_len)]
+    fn ffi_new_sockaddr_un() {
+        let path = [b'a' as c_char, 0];
+        let (sa, len) = unsafe { new_sockaddr_un(path.as_ptr()) };
+        assert!(sa.sun_family == libc::AF_UNIX as sa_family_t, "kani.ffi.sockaddr_family_unix");
+        assert!(len == mem::size_of::<sockaddr_un>(), "kani.ffi.sockaddr_len");
+        assert!(unsafe { STRNCPY_N } == sa.sun_path.len() - 1, "kani.ffi.sun_path_keeps_terminating_nul");
+        assert!(sa.sun_path[sa.sun_path.len() - 1] == 0, "kani.ffi.sun_path_last_byte_zero");
+    }
+
     // ======================= K4b: error conversions over all errno values (C03, C10, C09) =======================
     fn any_unix_error() -> UnixError {
         if kani::any() {
